@@ -199,7 +199,10 @@ def run_spec(spec, ctx):
         status = "inconclusive"
         detail = "unsupported MIR construct: " + unsupported[0]
     fl = []
-    if findings and status != "inconclusive":
+    if findings:
+        # a finding is reported even when the run is otherwise inconclusive: the driver replays it natively and
+        # only a reproducing replay becomes a violation, everything else stays exit 2
+        inconclusive_reason = detail if status == "inconclusive" else ""
         status = "fail"
     for (e, fd) in findings:
         rec = {"kind": fd.kind, "function": fd.func, "block": fd.bb, "message": fd.msg, "tag": fd.tag}
